@@ -111,6 +111,53 @@ Proof.
     intros a b r H; destruct (K1 a b r H) as [->|H']; auto; right;
     exists (a_epoch e), (a_lamport e), (l_ctr st + 1), tail; (split; [lia | split; [exact Sc | reflexivity]]).
 Qed.
+
+(* ---------- a Build of any event that passes the application's guard does not crash ---------- *)
+Lemma fill_branch_hb s e : hb (snd (fill_branch s e)) = hb s.
+Proof.
+  unfold fill_branch. destruct (self_parent e) as [sp|].
+  - destruct (alookup sp (ebr s)) as [b|]; [destruct (_ =? _)|]; reflexivity.
+  - destruct (_ =? _); reflexivity.
+Qed.
+Lemma add_some s e : (forall p, In p (epar e) -> exists v, alookup p (hb s) = Some v) -> exists s', add s e = Some s'.
+Proof.
+  intros H. unfold add. pose proof (fill_branch_hb s e) as Hb. destruct (fill_branch s e) as [me s1]. cbn [snd] in Hb.
+  destruct (existsb _ (map (fun p => alookup p (hb s1)) (epar e))) eqn:X; [|eexists; reflexivity]. exfalso.
+  apply existsb_exists in X as [o [Ho Hn]]. apply in_map_iff in Ho as [p [<- Hp]]. rewrite Hb in Hn.
+  destruct (H p Hp) as [v Hv]. rewrite Hv in Hn. discriminate.
+Qed.
+
+Lemma fcq_loop_nil st a c : fcq_loop cap st a [] c = (has_quorum (l_vals st) c, st).
+Proof. reflexivity. Qed.
+Lemma calc_loop_fuel e maxf : forall fuel st f, (cnt_from (l_roots st) f < fuel)%nat ->
+  fst (calc_loop cap fuel st e f maxf) <> None.
+Proof.
+  induction fuel as [|fu IH]; intros st f H; [lia|]. cbn [calc_loop].
+  destruct (negb (f <? maxf)); [discriminate|]. unfold fc_by_quorum_on.
+  destruct (fcq_loop_keep (a_id e) (get_frame_roots st f) st (new_counter (l_vals st))) as [c1 [S1 _]].
+  destruct (fcq_loop cap st (a_id e) (get_frame_roots st f) (new_counter (l_vals st))) as [bb st1] eqn:FQ. cbn [snd] in S1. subst st1.
+  destruct bb; [|discriminate]. apply IH. cbn [l_roots set_fcc].
+  assert (Hne : exists r, In r (l_roots st) /\ r_frame r = f).
+  { destruct (get_frame_roots st f) as [|r t] eqn:G.
+    - rewrite fcq_loop_nil in FQ. rewrite empty_no_quorum in FQ. discriminate.
+    - exists r. assert (Hin : In r (get_frame_roots st f)) by (rewrite G; left; reflexivity).
+      unfold get_frame_roots in Hin. apply filter_In in Hin as [Hin Hf]. apply N.eqb_eq in Hf. auto. }
+  pose proof (cnt_from_step (l_roots st) f Hne). lia.
+Qed.
+Lemma calc_frame_ok es st e co :
+  (forall sp, a_self_parent e = Some sp -> exists pe, get_event es sp = Some pe) ->
+  exists r, fst (calc_frame cap es st e co) = Ok r.
+Proof.
+  intros Hsp. unfold calc_frame.
+  assert (S : exists spf, (match a_self_parent e with
+            | Some sp => match get_event es sp with Some pe => Ok (a_frame pe) | None => Err EPanic end
+            | None => Ok 0 end) = Ok spf).
+  { destruct (a_self_parent e) as [sp|]; [|eauto]. destruct (Hsp sp eq_refl) as [pe ->]. eauto. }
+  destruct S as [spf ->].
+  pose proof (calc_loop_fuel e (if co then a_frame e else spf + 100) (roots_fuel st) st spf) as F.
+  destruct (calc_loop cap (roots_fuel st) st e spf (if co then a_frame e else spf + 100)) as [[f|] st1]; cbn [fst] in *; [eauto|].
+  exfalso. apply F; [|reflexivity]. unfold roots_fuel. pose proof (cnt_from_le (l_roots st) spf). lia.
+Qed.
 End Keep.
 
 (* ================= noise steps ================= *)
@@ -134,7 +181,7 @@ Definition is_build (o : op) : bool := match o with OpB _ => true | _ => false e
 (* what the theorem asks of an operation that is not the Build / Process of a valid event *)
 Definition noise_ok (i : inst) (o : op) : Prop :=
   match o with
-  | OpB _ => snd (step cap [] sample i o) = false                  (* the speculative Build did not crash the instance *)
+  | OpB _ => True                                                   (* any speculative Build *)
   | OpP x => J (a_id x) /\
              match fst (fst (step cap [] sample i o)) with
              | ObsSkip _ => True | ObsP (Some EWrongFrame) _ _ _ => True | _ => False end
@@ -169,6 +216,40 @@ Qed.
 Lemma set_ctr_same st : set_ctr st (l_ctr st) = st.
 Proof. destruct st; reflexivity. Qed.
 
+Lemma build_alive i T Dr B x : Sim i T Dr B -> l_ctr (i_st i) + 1 <= K -> snd (step cap [] sample i (OpB x)) = false.
+Proof.
+  intros [W [S [[C CI I0 N0] AV]] FR CT PR SG CH] Hc. cbn [step].
+  destruct (guard i x false) as [w|] eqn:G; [reflexivity|].
+  unfold guard in G. cbn [andb] in G.
+  destruct (negb (a_epoch x =? l_epoch (i_st i))) eqn:G1; [discriminate|].
+  destruct (negb (forallb (fun p => AbftRun.mem p (i_proc i)) (a_parents x))) eqn:G2; [discriminate|].
+  destruct (negb (v_exists (l_vals (i_st i)) (a_creator x))) eqn:G3; [discriminate|]. clear G.
+  apply negb_false_iff in G2. rewrite forallb_forall in G2.
+  assert (Hpar : forall p, In p (a_parents x) -> exists e0, In e0 Dr /\ eid (fe e0) = p).
+  { intros p Hp. specialize (G2 p Hp). apply mem_true, PR in G2. unfold ids_of in G2. apply in_map_iff in G2 as [e0 [E0 He0]]. eauto. }
+  destruct (build_with cap sample (i_es i) (i_st i) x) as [r st'] eqn:BE. cbn [snd].
+  unfold build_with in BE.
+  assert (Sc : sample (l_ctr (i_st i) + 1) = Some (be 24 (l_ctr (i_st i) + 1))).
+  { unfold sample. replace (2 ^ 192 <=? l_ctr (i_st i) + 1) with false by (symmetry; apply N.leb_gt; lia). reflexivity. }
+  rewrite Sc in BE. cbn [l_idx l_vals l_epoch set_ctr] in BE.
+  set (x' := set_id x (mk_id_bytes (a_epoch x) (a_lamport x) (be 24 (l_ctr (i_st i) + 1)))) in *.
+  destruct (add_some (l_idx (i_st i)) (vev (l_vals (i_st i)) x')) as [s' Ha].
+  { intros p Hp. cbn [vev epar x' set_id a_parents] in Hp. destruct (Hpar p Hp) as [e0 [He0 <-]].
+    destruct (event_node vals T Dr e0 W He0) as [n0 [Hn0 [En0 _]]].
+    destruct (node_evt lam vals _ _ _ _ _ n0 C Hn0) as [ev Ev]. rewrite <- En0 in Ev.
+    destruct (v_keys_hbla _ _ (co_vinv _ _ _ _ _ _ _ C) _ _ Ev) as [Hh _]. exact Hh. }
+  rewrite Ha in BE.
+  change (a_epoch x') with (a_epoch x) in BE. change (a_creator x') with (a_creator x) in BE.
+  rewrite G1, G3 in BE. cbn [orb] in BE.
+  destruct (calc_frame_ok cap (i_es i) (set_idx (set_ctr (i_st i) (l_ctr (i_st i) + 1)) s') x' false) as [[spf fr] Hr].
+  { intros sp Hsp. change (a_self_parent x') with (a_self_parent x) in Hsp.
+    destruct (Hpar sp (self_parent_in_parents x sp Hsp)) as [e0 [He0 <-]].
+    exists (to_aevent lam vals e0). apply (co_es _ _ _ _ _ _ _ C); [exact He0|].
+    destruct (event_node vals T Dr e0 W He0) as [n0 [Hn0 [En0 _]]]. exists n0. auto. }
+  destruct (calc_frame cap (i_es i) (set_idx (set_ctr (i_st i) (l_ctr (i_st i) + 1)) s') x' false) as [rr st1]. cbn [fst] in Hr. subst rr.
+  inversion BE; subst. reflexivity.
+Qed.
+
 Lemma noise_step i T Dr B o : Sim i T Dr B -> few_forkers vals T -> noise_ok i o ->
   (is_build o = true -> l_ctr (i_st i) + 1 <= K) ->
   exists ob i', step cap [] sample i o = (ob, i', false) /\ Sim i' T Dr B /\
@@ -188,11 +269,12 @@ Proof.
     + apply (keeps_cache_inv i T Dr B _ c' J HS); [lia|]. intros a b r H. destruct (Kp a b r H) as [->|Old]; [right; right; exact Jx | left; exact Old].
     + intros e He. apply es_remove_other. intros E. apply (proj2 (sm_fresh _ _ _ _ _ _ _ _ HS e He)). rewrite E. exact Jx.
   - (* any speculative Build *)
-    cbn [step] in OK |- *.
-    destruct (guard i x false) as [w|]; [exists (ObsSkip w), i; split; [reflexivity | split; [exact HS | lia]]|].
+    cbn [step].
+    destruct (guard i x false) as [w|] eqn:GD; [exists (ObsSkip w), i; split; [reflexivity | split; [exact HS | lia]]|].
     destruct (build_cache cap (i_es i) (i_st i) x) as [c' [Sh Kp]].
-    destruct (build_with cap sample (i_es i) (i_st i) x) as [r st'] eqn:BE. cbn [snd] in Sh, OK. subst st'.
-    eexists _, _. split; [rewrite OK; reflexivity|]. cbn [i_st l_ctr set_fcc set_ctr]. split; [|lia].
+    destruct (build_with cap sample (i_es i) (i_st i) x) as [r st'] eqn:BE. cbn [snd] in Sh. subst st'.
+    pose proof (build_alive i T Dr B x HS (HB eq_refl)) as AL. cbn [step] in AL. rewrite GD, BE in AL. cbn [snd] in AL.
+    eexists _, _. split; [rewrite AL; reflexivity|]. cbn [i_st l_ctr set_fcc set_ctr]. split; [|lia].
     apply (Sim_update i T Dr B (l_ctr (i_st i) + 1) c' _ HS); [lia | apply HB; reflexivity | | auto].
     apply (keeps_cache_inv i T Dr B _ c' J HS); [lia|]. intros a b r0 H. destruct (Kp a b r0 H) as [Old|Tm]; [left; exact Old | right; left; exact Tm].
   - (* restart *)
